@@ -572,11 +572,128 @@ def long_history(case):
     return tuple(log)
 
 
+def wrap_case(case):
+    """Between two timesteps exactly 2**k scheduler operations (or exactly 2**k registrations) happen that leave the number
+    of registered systems unchanged but not their order: a change counter that wraps at 2**k must not make the second
+    timestep look like the first."""
+    reset_library()
+    k, count = case['k'], case['count']
+    m = new_model(seed=1)
+    log = []
+    Rec, _, _ = make_recorder(log)
+    a, b, c = Rec('a', 'a', m, 0), Rec('b', 'b', m, 0), Rec('c', 'c', m, 0)
+    for o in (a, b, c):
+        m.systems.add_system(o)
+    tmp = Rec('tmp', 'tmp', m, 1)
+    m.execute()
+    if log != ['a', 'b', 'c']:
+        raise Violation('first timestep: execution order', expected=['a', 'b', 'c'], observed=list(log))
+    del log[:]
+    m.systems.remove_system('a')
+    m.systems.add_system(a)          # a is now the youngest of its priority
+    pairs = (2 ** k - 2) // 2 if count == 'operations' else 2 ** k - 1       # all operations / registrations only
+    for _ in range(pairs):
+        m.systems.add_system(tmp)
+        m.systems.remove_system('tmp')
+    m.execute()
+    if log != ['b', 'c', 'a']:
+        raise Violation(f'a system re-registered, then {pairs} add/remove pairs of a transient system ({count} between the '
+                        f'two timesteps: 2**{k}): execution order', expected=['b', 'c', 'a'], observed=list(log))
+    return 2 * pairs + 4
+
+
+class BatchProbe(Collector):
+    """Records which systems ran before it in the current timestep (module-level: batch_run builds the model itself)."""
+
+    def collect(self):
+        self.records.append(list(self.model.ran))
+        del self.model.ran[:]
+
+
+class BatchPeer(Core.System):
+    def execute(self):
+        self.model.ran.append(self.id)
+
+
+class BatchModel(Core.Model):
+    def __init__(self, order=0):
+        super().__init__(seed=1)
+        self.ran = []
+        # the probe is registered BEFORE a peer of its own priority (-1): it runs before that peer
+        names = [['reset', 'probe', 'other'], ['probe', 'reset', 'other'], ['reset', 'other', 'probe']][order]
+        for n in names:
+            if n == 'probe':
+                self.systems.add_system(BatchProbe('probe', self))
+            else:
+                self.systems.add_system(BatchPeer(n, self, priority=-1))
+        self.systems.add_system(BatchPeer('early', self, priority=3))
+
+
+def batch_order_case(case):
+    """The same model class stepped by hand and run through batch_run(collectors=...): the systems run in the order the
+    model's constructor registered them, whoever drives the model."""
+    import ECAgent.Batching as Batching
+    reset_library()
+    order = case['order']
+    names = [['reset', 'probe', 'other'], ['probe', 'reset', 'other'], ['reset', 'other', 'probe']][order]
+    first = ['early'] + names[:names.index('probe')]
+    later = names[names.index('probe') + 1:] + first
+    exp = [first, later, later]
+    m = BatchModel(order)
+    m.execute(3)
+    if m.systems['probe'].records != exp:
+        raise Violation(f'model stepped by hand (registration order {names}): what ran before the probe', expected=exp,
+                        observed=m.systems['probe'].records)
+    for coll in ('probe', ['probe']):
+        got = Batching.batch_run(BatchModel, {'order': [order]}, collectors=coll, max_timesteps=3)
+        rec = got[0] if coll == 'probe' else got[0]['probe']
+        if rec != exp:
+            raise Violation(f'model run by batch_run(collectors={coll!r}) (registration order {names}): the systems did not '
+                            f'run in (descending priority, registration order)', expected=exp, observed=rec)
+    return 9
+
+
+def _bg_long(conn, case):
+    try:
+        hbfs._guard(long_history, case)
+        conn.send(None)
+    except Violation as v:
+        conn.send((v.msg, v.expected, v.observed))
+    conn.close()
+
+
 # the cheap legs run once more under the runner's ambient configurations (python -O, other logger levels)
 AMBIENT_LEGS = True
 
 
 def run(ctx):
+    bg = None
+    if not ctx.small and ctx.tier == 'quick':
+        # the longest single history (2^24+16 cycles, ~30 s) runs in a process of its own next to everything else
+        import multiprocessing
+        mp = multiprocessing.get_context('fork')
+        recv, send = mp.Pipe(False)
+        bg_case = {'leg': 'long_history', 'cycles': 2 ** 24 + 16}
+        bg = (mp.Process(target=_bg_long, args=(send, bg_case)), recv, bg_case)
+        bg[0].start()
+    try:
+        _run(ctx)
+    finally:
+        if bg is not None:
+            proc, recv, bg_case = bg
+            if ctx.violations:
+                proc.terminate()
+            else:
+                res = recv.recv() if recv.poll(600) else ('the longest history did not finish within 600 s', None, None)
+                ctx.traces += 1
+                ctx.transitions += 2 * bg_case['cycles']
+                if res is not None:
+                    ctx.report(bg_case, Violation(*res))
+                ctx.leg('long_history_2^24', note='2^24+16 register/remove cycles, in a process of its own')
+            proc.join(5)
+
+
+def _run(ctx):
     # cheap single-history legs first (a change that introduces unbounded hidden state makes the BFS legs slow)
     for case in ({'leg': 'churn', 'rounds': 200},):
         ctx.traces += 1
@@ -594,6 +711,25 @@ def run(ctx):
         except Violation as v:
             ctx.report(case, v)
             return
+    for k in ((8,) if ctx.small else (8, 12, 16, 17) if ctx.tier == 'quick' else (8, 12, 16, 17, 20)):
+        for count in ('operations', 'registrations'):
+            case = {'leg': 'wrap', 'k': k, 'count': count}
+            ctx.traces += 1
+            try:
+                ctx.transitions += hbfs._guard(wrap_case, case)
+            except Violation as v:
+                ctx.report(case, v)
+                return
+    for order in (0, 1, 2):
+        case = {'leg': 'batch_order', 'order': order}
+        ctx.traces += 1
+        try:
+            ctx.transitions += hbfs._guard(batch_order_case, case)
+        except Violation as v:
+            ctx.report(case, v)
+            return
+    ctx.leg('wrap_and_batch', note='exactly 2^k operations / registrations between two timesteps (k = 8, 12, 16, 17; thorough '
+                                   'also 20); the model driven by batch_run')
     ctx.leg('long_history', note='single deep histories of 70 000 and 2^20+16 (thorough: also 2^24+16) register/remove cycles; churn of '
                                  '200 short-lived colliding / new system objects')
     for n in ((300,) if ctx.small else (3000,) if ctx.tier == 'quick' else (3000, 12000)):
@@ -697,6 +833,12 @@ def replay(case):
         return
     if case['leg'] == 'churn':
         hbfs._guard(churn_case, case)
+        return
+    if case['leg'] == 'wrap':
+        hbfs._guard(wrap_case, case)
+        return
+    if case['leg'] == 'batch_order':
+        hbfs._guard(batch_order_case, case)
         return
     if case['leg'] == 'clone':
         hbfs._guard(clone_case, case)
